@@ -15,4 +15,10 @@ RC=$?
 if [ "$TIER" = "thorough" ] && [ $RC -ne 2 ]; then
   python3 "$HERE/tools/thorough.py" "$ID" || echo "variant validation could not run"
 fi
+# controls: every rule must still fire on one seeded variant of the current tree (skipped when the verdict is already a violation)
+if [ $RC -eq 0 ] && [ -z "$VERIF_NO_CONTROLS" ]; then
+  python3 "$HERE/tools/thorough.py" "$ID" --controls
+  CRC=$?
+  if [ $CRC -eq 3 ]; then exit 2; fi
+fi
 exit $RC
